@@ -33,9 +33,9 @@ func init() {
 			"queries are non-decreasing, the first query defines the start unless a start time is given",
 		},
 		Gen: func(tier string, seed uint64) []core.Case {
-			n, per := 40, 500
+			n, per := 120, 1000
 			if tier == "thorough" {
-				n, per = 400, 2500
+				n, per = 800, 2500
 			}
 			var cs []core.Case
 			for i := 0; i < n; i++ {
